@@ -194,7 +194,7 @@ def _(n): return oST(ST.maximally_mixed_state(int(n)))
 @op('stabilizers')
 def _(t): return oPL(STATE(t).stabilizers)
 @op('entropy')
-def _(t, m): return iv(STATE(t).entropy(np.array(m, dtype=np.bool_)))
+def _(t, m): return iv(STATE(t).entropy([i for i, b in enumerate(m) if b]))     # torch accepts index lists only
 @op('entropy_of')
 def _(n, gs, m): return iv(U.stabilizer_entropy(GS(gs, 2 * n), torch.tensor([bool(b) for b in m])))
 @op('state_rotate')
